@@ -988,6 +988,14 @@ def chain_test_rules(rep, prog, rule="CHAIN.test"):
     from ..pattern import chain_test_is_exact
     q = U + "is_chain_graph"
     f = need(prog, q)
+    # the reference the test compares with must be built afresh: chain_graph is public, callers edit what it returns (add an edge, scale by weights);
+    # with a memoised chain_graph the edit lands in the reference itself and the edited graph still "is a chain" - for the rest of the process
+    fcg = prog.func(U + "chain_graph") if prog.has(U + "chain_graph") else None
+    if fcg is not None and getattr(fcg, "cached", False):
+        rep.bad(rule + ".reference", fwhere(fcg), "chain_graph is memoised and returns a mutable array: the matrix is_chain_graph compares with is the one every caller of "
+                "chain_graph(p) received and may have edited; the chain shortcut of mec / imec is then taken for graphs that are not chains")
+    elif fcg is not None:
+        rep.ok(rule + ".reference", fwhere(fcg), "chain_graph builds its result on every call (not memoised)")
     if chain_test_is_exact(prog):
         rep.ok(rule, fwhere(f), "is_chain_graph(A) is the comparison of A with chain_graph(len(A))")
         return
